@@ -14,12 +14,14 @@ def main():
     CN = gather.contracts(null_ind=True)
     for fn in ('mju_gather', 'mju_scatter'):
         chk.unit(F, fn, CN, 'math', 'opaque', prefix='[ind=NULL]')
+    for fn in ('mju_copySparse', 'mju_zeroSparse'):       # row-wise copy / clear of a CSR matrix (engine_util_sparse.c)
+        chk.unit('src/engine/engine_util_sparse.c', fn, gather.sparse_contracts(), 'math', 'opaque')
     shim = os.path.join(os.path.dirname(os.path.dirname(os.path.abspath(__file__))), 'shims', 'c23_client.c')
     for fn in ('c23_roundtrip', 'c23_roundtrip_int'):
         chk.unit('verif:shims/c23_client.c', fn, C, 'math', 'opaque', abspath=shim)
     chk.assumptions |= {'scatter: the index list is injective (given with its inverse as a ghost array) - the engine scatters through awake-index lists and CSR column lists, which are strictly increasing',
                         'the arrays passed are distinct objects (restrict-qualified in the source)'}
     chk.out_of_reach += ['Cholesky / LU / band / sparse factor-solve pairs, rank-one updates, mju_eig3, mju_boxQP, QCQP: inductive matrix identities in nonlinear real arithmetic at general n',
-                         'dense <-> sparse conversion round trip (nested loops with a running address; contract designed, not discharged)',
+                         'dense <-> sparse conversion round trip, transpose, compress, products and additions of sparse matrices (running addresses / counting-sort arguments; not under contract); proved: copySparse / zeroSparse',
                          'AVX code paths (not compiled in the default build)']
     return chk.finish()
